@@ -80,11 +80,12 @@ class Ev:
         self.total_waits = 0
         self.timeouts = 0
         self.next_tick = None
+        self.bound = None
 
     def wait(self, timeout=None):
         self.waits += 1
         self.total_waits += 1
-        if self.waits > TICK_BOUND:
+        if self.waits > (self.bound or TICK_BOUND):
             raise symx.Abort('tick bound')
         vt = self.vt
         if self.next_tick is None or not (self.next_tick > vt.now):
@@ -318,6 +319,7 @@ def vm_worker(args):
             def bind_clock(net):
                 c = clock_mod.Clock()
                 c._event = Ev(vt, tick)
+                c._event.bound = args.get('tick_bound')
                 holder['clock'] = c
                 injection.bind_instance(c).to(i_lib.Clock)
             net = world.configure(clock=bind_clock)
@@ -333,15 +335,23 @@ def vm_worker(args):
             net.ev = ev
             vals = {}
             for sid in sids:
-                vals[sid] = ctx.real('time_%d' % sid, 0, 500 if mode != 'raw' else 500000)
+                vals[sid] = ctx.real('time_%d' % sid, 0, args.get('max_delay', 500) * (1 if mode != 'raw' else 1000))
             for inst, sid in slots:
                 inst.param0 = vals[sid]
             t0 = vt.now
             try:
                 m = Machine()
                 m.reset()
-                scripth._instrument(m, 400)
+                scripth._instrument(m, 400 * args.get('runs', 1))
                 m.run(prog)
+                for _ in range(args.get('runs', 1) - 1):
+                    # the same Machine (and its Clock object) runs the script again, some arbitrary time later: a new time line
+                    vt.advance('between_runs', 0, 100)
+                    del stamps[:]
+                    holder['clock']._event.waits = 0
+                    t0 = vt.now
+                    m.reset()
+                    m.run(prog)
             finally:
                 for inst, sid in slots:
                     inst.param0 = SENT_BASE + sid
@@ -621,6 +631,9 @@ def run(tier, seed):
     for mode, text, sids, due, tag in vm:
         items.append({'kind': 'vm', 'mode': mode, 'text': text, 'sids': sids, 'due': due, 'tag': tag,
                       'max_paths': 2000 if q else 20000, 'budget_s': 25 if q else 200})
+    for mode, text, sids, due, tag in vm[:2]:
+        items.append({'kind': 'vm', 'mode': mode, 'text': text, 'sids': sids, 'due': due, 'tag': tag + '-second-run', 'runs': 2, 'tick_bound': 3, 'max_delay': 0.4,
+                      'max_paths': 1500 if q else 20000, 'budget_s': 20 if q else 200})
     for k, first in enumerate(('set "M" begin stage row nosuch end', 'repeat 2 begin time nosuch end', 'define r with a begin set "M" begin hue nosuch',
                                'time 5 set "M" begin time nosuch', 'if {1 > 0} begin time 2 wait hue nosuch')):
         for text, sids, due in (('time %d on "A" time %d off "A" on "B"' % (S + 1, S + 2), [1, 2], [[1], [1, 2], [1, 2, 2]]),
